@@ -1,10 +1,10 @@
 package checks
 
 import (
-	_ "verif/gen/n1/server"
 	"fmt"
 	"os"
 	"testing"
+	_ "verif/gen/n1/server"
 )
 
 func TestDbgC09(t *testing.T) {
